@@ -6,7 +6,7 @@ import math
 from hypothesis import strategies as st
 
 from vf.core import Clause, Property, Violation
-from vf.osk import guarded, mk_model, mk_teams
+from vf.osk import guarded, mk_model, mk_teams, model_for
 from vf.predgen import pred_cases, pred_labels
 
 
@@ -14,7 +14,7 @@ def check_c11(case, ctx):
     cfg, teams = case["cfg"], case["teams"]
     kind = cfg["kind"]
     n = len(teams)
-    m = mk_model(cfg)
+    m = model_for(cfg, case)
     objs = mk_teams(m, teams)
     out = guarded(m.predict_rank, objs, what="predict_rank")
     ctx.called()
